@@ -872,6 +872,57 @@ def keyed_writes(res, base_pred=lambda b: True):
     return out
 
 
+def opaque(t) -> bool:
+    """the value passes through something this analysis does not read: an
+    unknown name / generator, a library iterator adaptor (itertools.starmap,
+    compress, islice ...), a function object taken from a table, a call to a
+    function or class of the program that was not looked through, a lookup
+    in a table that does not fold.  A rule that fails on such a value has no
+    evidence of a deviation."""
+    if not isinstance(t, T):
+        return False
+    for x in t.walk():
+        if x.op == "unknown":
+            return True
+        if x.op == "call":
+            n = tm.callee_name(x) or ""
+            if n.startswith(("itertools.", "functools.", "operator.")):
+                return True
+            if x.args[0].op in ("func", "cls", "bound", "closure", "call",
+                                "sub", "elem", "ite", "loopvar", "loopout"):
+                return True
+            if n in ("builtins.next", "builtins.iter", "builtins.getattr"):
+                return True
+        if x.op == "sub" and Interp_unname(x.args[0]).op == "dict":
+            return True
+    return False
+
+
+def indirect_calls(r) -> list:
+    """call events of a run whose callee is a value rather than a name (a
+    function taken from a table / a parameter / a conditional, a
+    functools.partial ...): what such a call does is not read here, so a
+    rule that misses a call it expects has no evidence that it is absent"""
+    out = []
+    for e in r.of_kind("call"):
+        fn = e.data.get("fn")
+        n = e.data.get("name") or ""
+        if n.startswith(("functools.", "itertools.", "operator.")):
+            out.append(e)
+        elif isinstance(fn, T) and e.data.get("target") is None and \
+                Interp_unname(fn).op in ("sub", "elem", "ite", "loopvar",
+                                         "loopout", "call", "param",
+                                         "unknown"):
+            out.append(e)
+    return out
+
+
+def Interp_unname(v):
+    while isinstance(v, T) and v.op == "named":
+        v = v.args[1]
+    return v
+
+
 def root_object(t: T) -> T:
     """the object a (loop-carried / mutated) container value started as"""
     for _ in range(12):
